@@ -23,7 +23,6 @@ import (
 const (
 	pkgPackages  = modPKO + "/internal/packages"
 	pkgInternCmd = modPKO + "/internal/cmd"
-	pkgCelCtx    = pkgPkgRender + "/celctx"
 )
 
 func init() {
